@@ -76,6 +76,10 @@ var c36Pool = []c36Query{
 	{sql: "SELECT FOUND_ROWS()", session: true},
 	{sql: "PREPARE p1 FROM 'SELECT COUNT(*) FROM t1 WHERE a < ?'", session: true},
 	{sql: "EXECUTE p1 USING @mine", session: true},
+	// reads the shared process list while other sessions' scans update their progress in it
+	{sql: "SHOW PROCESSLIST", session: true},
+	{sql: "SHOW FULL PROCESSLIST", session: true},
+	{sql: "SELECT COUNT(*) FROM t2 WHERE v >= 0"},
 }
 
 type c36Sess struct {
@@ -102,6 +106,9 @@ func c36Render(r *Res) string {
 func (x *c36Sess) exec(q string) *Res {
 	return x.s.exec(q, func(ctx *sql.Context) (sql.Schema, sql.RowIter, error) {
 		pl := x.s.W.Eng.ProcessList
+		// as the server builds it: the context knows the process list, so that table
+		// scans report their progress to it
+		ctx = sql.NewContext(ctx, sql.WithSession(x.s.S), sql.WithPid(ctx.Pid()), sql.WithProcessList(pl))
 		ctx, err := pl.BeginQuery(ctx, q)
 		if err != nil {
 			return nil, nil, err
